@@ -60,6 +60,15 @@ def opsSocketcan : List String → Option (String × String)
     let frames := blocks.map fun b => frameStr (unwire (blockOfBytes b))
     let e := match err with | none => "nil" | some c => s!"E{c}"
     some (s!"n={blocks.length} err={e} icpt=ok frames={";".intercalate frames}", "-")
+  | ["txq", hist] => do
+    let items ← (hist.splitOn ";").mapM fun tok =>
+      match tok.splitOn "," with
+      | [id, len, d, rem, ext, ok] => do
+        let f ← frameOf id len d rem ext
+        some (bytesOfBlock (wire f), ok == "1")
+      | _ => none
+    let (ws, ic, res) := transmitSeq items
+    some (s!"writes={ws.length} bytes={";".intercalate (ws.map bytesHex)} icpt=ok n={ic} ok={String.join (res.map boolStr)}", "-")
   | ["txs", id, len, d, rem, ext, ok] => do
     let f ← frameOf id len d rem ext
     let (ws, ic, res) := transmit (bytesOfBlock (wire f)) (ok == "1")
